@@ -28,6 +28,7 @@ type c19Pre struct {
 type c19Monitor struct {
 	BaseMonitor
 	pre      *c19Pre
+	batchNonce *uint64
 	Executed int
 	Failed   int
 	Rejected int
@@ -43,6 +44,12 @@ func (m *c19Monitor) bal(r *Run, ctx sdk.Context, a sdk.AccAddress) *big.Int {
 
 func (m *c19Monitor) BeforeTx(r *Run, ctx sdk.Context, tx *BuiltTx) {
 	m.pre = nil
+	m.batchNonce = nil
+	if tx.Kind == "ethbatch" {
+		n := r.Node.App.EvmKeeper.GetNonce(ctx, common.BytesToAddress(tx.Sender))
+		m.batchNonce = &n
+		return
+	}
 	if tx.Kind != "eth" || tx.Note == "replay" {
 		return
 	}
@@ -75,6 +82,21 @@ func (m *c19Monitor) BeforeTx(r *Run, ctx sdk.Context, tx *BuiltTx) {
 }
 
 func (m *c19Monitor) AfterTx(r *Run, ctx sdk.Context, tx *TxResult) {
+	if tx.Kind == "ethbatch" && m.batchNonce != nil {
+		// every Ethereum transaction included in a block consumes exactly one nonce: a batch of k
+		// included transactions moves the sender's nonce by k (or by 0 if the batch was rejected)
+		got := r.Node.App.EvmKeeper.GetNonce(ctx, common.BytesToAddress(tx.Sender))
+		want := *m.batchNonce + uint64(tx.NEth)
+		if tx.Resp.Code == 0 {
+			r.Probe("c19_batch_included")
+		} else if got == *m.batchNonce {
+			want = got // rejected at admission: nothing consumed (a batch that was admitted and then failed consumes its nonces)
+		}
+		if got != want {
+			r.violateKeepGoing(m.Name(), "sender-nonce-increases-by-exactly-one", fmt.Sprintf("batch-of-%d:code=%d", tx.NEth, tx.Resp.Code), fmt.Sprintf("%s: a batch of %d Ethereum transactions (nonces %d..) ended with code %d and sender nonce %d, expected %d", tx.Op, tx.NEth, *m.batchNonce, tx.Resp.Code, got, want))
+		}
+		return
+	}
 	p := m.pre
 	if p == nil {
 		return
@@ -268,6 +290,9 @@ func c19Plan(p *PRNG, cfg Config, tier string) Plan {
 				op.D = -1
 			}
 			op.E = []int{0, 0, 0, 1, 2, 3, 4, 5, 5, 6, 7, 8, 8, 9}[p.Intn(14)]
+			if p.Chance(1, 12) {
+				op = Op{K: "ebatch", A: op.A, C: op.C, E: p.Intn(3)}
+			}
 			op.B = p.Intn(4)
 			if op.E >= 1 && op.E <= 4 && op.N < 100000 && p.Chance(2, 3) {
 				op.N = 300000
